@@ -70,7 +70,7 @@ func gen(rng *rand.Rand, idx int) *tcase {
 	nn := 1 + rng.IntN(2)
 	for i := 0; i < nn; i++ {
 		nc := &nameCase{Name: []string{"undeclared/one", "undeclared/two"}[i]}
-		nc.Mode = []string{"ok", "ok", "slow", "slow", "fail", "failthenok", "hang", "hang", "notfound"}[rng.IntN(9)]
+		nc.Mode = []string{"ok", "ok", "slow", "slow", "fail", "failthenok", "hang", "hang", "notfound", "clienttimeout"}[rng.IntN(10)]
 		if nc.Mode == "slow" {
 			nc.D = []time.Duration{time.Millisecond, time.Second, 30 * time.Second, 2 * time.Minute, 4 * time.Minute}[rng.IntN(5)]
 		}
@@ -131,7 +131,7 @@ func TestC16(t *testing.T) {
 			lookupDuringPollOfStaleSecret(t, r, i)
 		}
 	}
-	r.Require("lookups_whose_cache_write_failed", "lookups_disabled_cases", "lookups_enabled_cases", "shared_flights", "failed_lookups", "hang_bounded_callers", "retry_after_foreign_cancel", "successful_lookups", "stress_lookups", "cases_with_failing_cache", "handles_followed_a_later_poll", "updaters_followed_a_later_poll", "real_client_cancel_cases", "overlapping_cache_writes", "real_client_slow_service_cases", "lookups_after_the_service_recovered", "real_client_failing_status_cases", "lookups_during_a_poll_of_a_stale_secret")
+	r.Require("requests_timed_out_inside_the_client", "lookups_whose_cache_write_failed", "lookups_disabled_cases", "lookups_enabled_cases", "shared_flights", "failed_lookups", "hang_bounded_callers", "retry_after_foreign_cancel", "successful_lookups", "stress_lookups", "cases_with_failing_cache", "handles_followed_a_later_poll", "updaters_followed_a_later_poll", "real_client_cancel_cases", "overlapping_cache_writes", "real_client_slow_service_cases", "lookups_after_the_service_recovered", "real_client_failing_status_cases", "lookups_during_a_poll_of_a_stale_secret")
 	r.Rule("seeded cases: AllowLookup on/off; 1-2 undeclared names each with a service mode (ok, slow D, fail, fail-then-ok, hang for ever, not found) and 1-6 callers (LookupSecret / NewUpdater / Fields.Apply) with start offsets and contexts (background, deadline 1 s/1 min/10 min, cancelled at a random instant). Distinct = (AllowLookup, service mode, number of callers, set of context kinds, set of caller outcomes)")
 }
 
@@ -169,6 +169,12 @@ func runCase(t *testing.T, r *evid.Run, c *tcase) {
 				return fakesvc.Behaviour{Delay: nc.D}
 			case "fail":
 				return fakesvc.Behaviour{Fail: fakesvc.ErrInjected}
+			case "clienttimeout":
+				// the CLIENT gives up on the request after two seconds (http.Client.Timeout, a transport's
+				// ResponseHeaderTimeout): net/http reports that with an error that wraps
+				// context.DeadlineExceeded although no caller's context has ended. A failed request like any other.
+				r.Count("requests_timed_out_inside_the_client", 1)
+				return fakesvc.Behaviour{Delay: 2 * time.Second, Plain: true, Fail: fmt.Errorf("Post \"https://setec.verif/api/get\": %w (Client.Timeout exceeded while awaiting headers)", context.DeadlineExceeded)}
 			case "failthenok":
 				if attempts[q.Name] == 1 {
 					return fakesvc.Behaviour{Fail: fakesvc.ErrInjected}
